@@ -6,6 +6,7 @@ the code really uses; each is then mapped to its model (npmodel) / its contract 
 """
 import ast
 import re
+import functools
 import builtins
 import inspect
 import types
@@ -53,6 +54,60 @@ class Env:
                 return e.globs
             e = e.parent
         return {}
+
+
+LRU_GHOST = "__lru__"
+
+
+class _LruBound:
+    """bound method wrapped in functools.lru_cache: a call without arguments is memoised per receiver in a ghost attribute
+    (exactly lru_cache's behaviour for that key: nothing ever invalidates it); calls with arguments are run unmemoised
+    (assumption recorded)."""
+
+    def __init__(self, obj, name, func):
+        self.obj, self.name, self.func = obj, name, func
+
+    def sym_call(self, ip, args, kwargs, lineno):
+        bm = BoundMethod(self.obj, self.func)
+        if args or kwargs:
+            M.use("functools.lru_cache with arguments = pure memoisation (receiver fields unmodified between calls)")
+            return ip.call(bm, args, kwargs, lineno)
+        key = LRU_GHOST + self.name + "()"
+        if self.obj.has(key):
+            return self.obj.get(key)
+        v = ip.call(bm, args, kwargs, lineno)
+        self.obj.set(key, v)
+        return v
+
+
+class SRecDict:
+    """`obj.__dict__` of a modelled object: a live view of its instance attributes (pop / get / in / [] / []=)."""
+
+    def __init__(self, rec):
+        self.rec = rec
+
+    def contains(self, ip, key, lineno=None):
+        return key in self.rec._f
+
+    def getattr(self, ip, name, lineno):
+        rec = self.rec
+
+        class _M:
+            def sym_call(self_, ip, args, kwargs, lineno):
+                if not isinstance(args[0], str):
+                    raise Unsupported("__dict__.%s with a non-constant key" % name)
+                if name == "pop":
+                    if args[0] in rec._f:
+                        return rec._f.pop(args[0])
+                    if len(args) > 1:
+                        return args[1]
+                    raise PathEnd("raise", "KeyError")
+                if name == "get":
+                    return rec._f.get(args[0], args[1] if len(args) > 1 else None)
+                raise Unsupported("__dict__.%s" % name)
+        if name in ("pop", "get"):
+            return _M()
+        raise Unsupported("__dict__.%s" % name)
 
 
 class Interp:
@@ -1282,6 +1337,8 @@ class Interp:
             cls = obj._cls
             if name == "__class__":
                 return cls
+            if name == "__dict__":
+                return SRecDict(obj)
             if cls is not None:
                 h = self.class_models.get((cls, name))
                 if h is not None:
@@ -1291,7 +1348,22 @@ class Interp:
                 except AttributeError:
                     raise PathEnd("raise", "AttributeError")
                 if isinstance(raw, property):
+                    if type(raw.fget).__name__ == "_lru_cache_wrapper" and hasattr(raw.fget, "__wrapped__"):
+                        # property over lru_cache (bionumpy.util.cached_property): memoised per receiver and NEVER invalidated -
+                        # carried as a ghost attribute of the object so that a later change of the receiver's fields is seen
+                        key = LRU_GHOST + name
+                        if obj.has(key):
+                            return obj.get(key)
+                        v = self.call_real(raw.fget.__wrapped__, [obj], {}, lineno, owner=self.owner_of(cls, name))
+                        obj.set(key, v)
+                        return v
                     return self.call_real(raw.fget, [obj], {}, lineno, owner=self.owner_of(cls, name))
+                if isinstance(raw, functools.cached_property):
+                    # CPython: a non-data descriptor - the first access runs the function and stores the value in the instance
+                    # dict under the same name, later accesses find it there (obj.has above) until it is popped / deleted
+                    v = self.call_real(raw.func, [obj], {}, lineno, owner=self.owner_of(cls, name))
+                    obj.set(name, v)
+                    return v
                 if isinstance(raw, (classmethod,)):
                     return BoundMethod(cls, self.mark_owner(raw.__func__, self.owner_of(cls, name)))
                 if isinstance(raw, staticmethod):
@@ -1299,7 +1371,7 @@ class Interp:
                 if isinstance(raw, types.FunctionType):
                     return BoundMethod(obj, self.mark_owner(raw, self.owner_of(cls, name)))
                 if hasattr(raw, "__wrapped__") and type(raw).__name__ == "_lru_cache_wrapper":
-                    return BoundMethod(obj, self.mark_owner(raw.__wrapped__, self.owner_of(cls, name)))
+                    return _LruBound(obj, name, self.mark_owner(raw.__wrapped__, self.owner_of(cls, name)))
                 if hasattr(raw, "__wrapped__") and isinstance(getattr(raw, "__wrapped__"), types.FunctionType):
                     raise Unsupported("decorated attribute %s" % name)
                 return self.from_real(raw)
